@@ -15,15 +15,21 @@ def run(prog, chk):
         "written from the property statement (all INT-xx conditions, calendar/publication/authentication alternatives, document "
         "binding). Verdict tables: for each rule function reachable from internalRules an explicit-state exploration of "
         "CFG x status x last stored (resultCode, errorCode) yields the set of verdict triples it can return, compared with the "
-        "documented table (FAIL only with the documented INT/GEN code and only with status KSI_OK; OK only as (OK, NONE, KSI_OK)).")
+        "documented table (FAIL only with the documented INT/GEN code and only with status KSI_OK; OK only as (OK, NONE, KSI_OK)). "
+        "Guard tables: each rule function is evaluated abstractly with every component present (and once with each component absent); the "
+        "equality / ordering primitives are enumerated over their outcomes and the operands they receive are named by the object fields "
+        "they come from: the table 'comparisons -> verdict' must equal the reviewed one, so a comparison that is dropped, negated or applied "
+        "to another operand is a violation.")
     chk.not_decided = ["that the recomputed hashes equal an independent evaluation for all inputs",
                        "the accepting direction (a consistent signature is never rejected)",
-                       "that each comparison inside a rule is applied to the right operands (guard tables: see rules/C01 guards when present)"]
+                       "rules that iterate over lists are covered for two-element lists only (index continuation, metadata padding: partly)"]
     chk.rule("C01.tables", "rule tables well formed: NULL sentinel only at the end, typed targets, acyclic", floor=1)
     chk.rule("C01.certificate", "every OK path of the INTERNAL policy satisfies the internal certificate formula", floor=1)
     chk.rule("C01.verdicts", "verdict table of each internal rule function equals the documented one", floor=25)
+    chk.rule("C01.guards", "guard table of each internal rule: which comparison on which operands gates which verdict", floor=25)
     PC.check_structure(prog, chk, "C01.tables", ["INTERNAL"])
     PC.check_certificate(prog, chk, "C01.certificate", "INTERNAL", CERT.INTERNAL, "internal consistency certificate")
     T = PC.tables(prog)
     root, _fb, _n = T.policy("KSI_VERIFICATION_POLICY_INTERNAL")
     PC.check_verdicts(prog, chk, "C01.verdicts", T.basic_rules(root))
+    PC.check_guards(prog, chk, "C01.guards", T.basic_rules(root))
